@@ -1,0 +1,69 @@
+//go:build verif
+
+package tbtc
+
+import (
+	"crypto/ecdsa"
+
+	"github.com/keep-network/keep-core/pkg/bitcoin"
+)
+
+// Verification hook (build tag verif): re-exports existing identifiers only.
+
+func VerifAssembleDepositSweepTransaction(
+	bitcoinChain bitcoin.Chain,
+	walletPublicKey *ecdsa.PublicKey,
+	walletMainUtxo *bitcoin.UnspentTransactionOutput,
+	deposits []*Deposit,
+	fee int64,
+) (*bitcoin.TransactionBuilder, error) {
+	return assembleDepositSweepTransaction(
+		bitcoinChain, walletPublicKey, walletMainUtxo, deposits, fee,
+	)
+}
+
+// VerifAssembleRedemptionTransaction uses the fee distribution of the real
+// redemption action: withRedemptionTotalFee(totalFee).
+func VerifAssembleRedemptionTransaction(
+	bitcoinChain bitcoin.Chain,
+	walletPublicKey *ecdsa.PublicKey,
+	walletMainUtxo *bitcoin.UnspentTransactionOutput,
+	requests []*RedemptionRequest,
+	totalFee int64,
+	shape ...RedemptionTransactionShape,
+) (*bitcoin.TransactionBuilder, error) {
+	return assembleRedemptionTransaction(
+		bitcoinChain, walletPublicKey, walletMainUtxo, requests,
+		withRedemptionTotalFee(totalFee), shape...,
+	)
+}
+
+func VerifRedemptionFeeShares(
+	totalFee int64,
+	requests []*RedemptionRequest,
+) []int64 {
+	return withRedemptionTotalFee(totalFee)(requests)
+}
+
+func VerifAssembleMovingFundsTransaction(
+	bitcoinChain bitcoin.Chain,
+	walletMainUtxo *bitcoin.UnspentTransactionOutput,
+	targetWallets [][20]byte,
+	fee int64,
+) (*bitcoin.TransactionBuilder, error) {
+	return assembleMovingFundsTransaction(
+		bitcoinChain, walletMainUtxo, targetWallets, fee,
+	)
+}
+
+func VerifAssembleMovedFundsSweepTransaction(
+	bitcoinChain bitcoin.Chain,
+	walletPublicKey *ecdsa.PublicKey,
+	movedFundsUtxo *bitcoin.UnspentTransactionOutput,
+	walletMainUtxo *bitcoin.UnspentTransactionOutput,
+	fee int64,
+) (*bitcoin.TransactionBuilder, error) {
+	return assembleMovedFundsSweepTransaction(
+		bitcoinChain, walletPublicKey, movedFundsUtxo, walletMainUtxo, fee,
+	)
+}
